@@ -5,8 +5,8 @@ MCBad  == AllBadChains({r \in Rev : r.d = 1} \cup {Mk(1, 2)})     \* a few malfo
 NoChains == {}
 One == {1}
 Two == {1, 2}
-TreeCfg(gv) == [lvl |-> "tree", ac |-> TRUE, lim |-> 0, gv |-> gv]
-DbCfg(ac, lim) == [lvl |-> "db", ac |-> ac, lim |-> lim, gv |-> <<1, 2, 3, 4>>]
+TreeCfg(gv) == [lvl |-> "tree", ac |-> TRUE, lim |-> 0, gv |-> gv, n |-> Cardinality(Reps)]
+DbCfg(ac, lim) == [lvl |-> "db", ac |-> ac, lim |-> lim, gv |-> <<1, 2, 3, 4>>, n |-> Cardinality(Reps)]
 (* generation values: contiguous, and with a gap (tombstone ageing reaches shared ancestors only across a gap) *)
 CfgTree    == {TreeCfg(<<1, 2, 3, 4>>), TreeCfg(<<1, 2, 9, 10>>)}
 CfgTree1   == {TreeCfg(<<1, 2, 3, 4>>)}
